@@ -24,7 +24,8 @@ type Ctx struct {
 	Replay string
 	Rng    *rand.Rand
 
-	header  string   // Coq preamble of every case file
+	header   string // Coq preamble of every case file
+	caseType string // Coq type of a case (default "case")
 	cases   []string // Coq terms, one per case
 	infos   []CaseInfo
 	perFile int
@@ -143,7 +144,11 @@ func (c *Ctx) Flush() error {
 		name := fmt.Sprintf("cases_%03d.v", k)
 		var b strings.Builder
 		b.WriteString(c.header)
-		b.WriteString("\nDefinition cases : list case := [\n")
+		ct := c.caseType
+		if ct == "" {
+			ct = "case"
+		}
+		b.WriteString("\nDefinition cases : list " + ct + " := [\n")
 		for i := off; i < end; i++ {
 			b.WriteString("  ")
 			b.WriteString(c.cases[i])
